@@ -77,7 +77,9 @@ def _conservation(sections, obs):
 
 def _classify(name, sections, exp, obs):
     """Which recognised defect family (if any) turns the expected partition into the observed one?"""
-    models = [(von_last_model(sections), F8V), (partition(sections, code_like=True), N13), (von_last_model(sections, code_like=True), F8V)]
+    # the word-case family is tried first: with the von/last rule repaired in the code, an observed partition that equals the
+    # reference partition over the code's own word cases is N13 even when the von/last defect model happens to give the same parts
+    models = [(partition(sections, code_like=True), N13), (von_last_model(sections), F8V), (von_last_model(sections, code_like=True), F8V)]
     for m, key in models:
         if m is not None and m == obs:
             return key
